@@ -55,6 +55,9 @@ def gen(rng, tier):
     # none, the template block's) is what requests to it are authenticated under — the whole of it, and nothing else
     for _ in range(60 if tier == "quick" else 1500):
         tsec = bytes(rng.choice(b"abcdefghijklmnopqrstuvwxyz0123456789") for _ in range(rng.choice([1, 2, 6, 6, 16, 17, 40])))
+        if len(tsec) > 2 and rng.random() < 0.3:
+            k = rng.randrange(1, len(tsec) - 1)
+            tsec = tsec[:k] + b"\x00" + tsec[k + 1:]      # a binary secret (written %00 in the configuration): its length is not its strlen
         own = rng.random() < 0.75
         dsec = bytes(rng.choice(b"ABCDEFGHIJKLMNOPQRSTUVWXYZ0123456789") for _ in range(rng.choice([1, 2, 3, 6, 12, 32, 64]))) if own else None
         block = b"server dynamic {\n  host 127.0.0.1:1\n  type tcp\n" + (b"  secret " + dsec + b"\n" if own else b"") + b"}\n"
